@@ -52,6 +52,12 @@ func (p *Program) verifyFunc(name string) *FuncResult {
 		v := f.freshVal("p_"+prm.Name(), prm.Type())
 		v.Typ = prm.Type()
 		e.assert(e.wfVal(v.T, prm.Type(), "alloc0"))
+		// input-size bound used by the allocation obligations (make sizes must be linear in input sizes)
+		if _, ok := prm.Type().Underlying().(*types.Slice); ok {
+			e.assert(fmt.Sprintf("(<= (s-cap %s) alim)", v.T))
+		} else if isString(prm.Type()) {
+			e.assert(fmt.Sprintf("(<= (slen %s) alim)", v.T))
+		}
 		if i == 0 && fn.Signature.Recv() != nil {
 			if _, ok := prm.Type().Underlying().(*types.Pointer); ok {
 				e.assert(fmt.Sprintf("(not (= %s 0))", v.T))
